@@ -247,6 +247,7 @@ HASHLISTS: list[Any] = [
     [{"k": "x"}, {"j": 1}, {"k": None}, {"k": False}, {"k": "y"}],
     [{"t": "B"}, {"t": "a"}, {"u": 1}],
     [],
+    [{"k": 0, "t": "z"}, {"k": 1, "t": ""}, {"k": "", "t": "e"}, {"k": "x"}, {"j": 2}],
 ]
 OTHERS: list[Any] = [None, True, False, {}, {"a": 1}, UNDEF]
 
@@ -265,7 +266,7 @@ def pool_for(kind: str) -> list[Any]:
     if kind == "k":
         return ["k", "t", "nope"]
     if kind == "kv":
-        return [1, "x", "a", None, 2]
+        return [1, "x", "a", None, 2, 0, ""]  # falsy targets are targets all the same (only nil / undefined mean "no target given")
     if kind == "sep":
         return [",", " ", "", "b", ", ", "ab"]
     if kind == "e":
